@@ -375,8 +375,50 @@ func (c *Ctx) orientRule(rule string) int {
 					n++
 					key := fmt.Sprintf("%s/ConnectNodes(%s,%s)+SetRoot(%s)", funcName(fi.Obj), cn.parent, cn.child, r)
 					if cn.child != r {
-						c.OK(rule, key, sr.Pos(), "the new root is not the child end of the branch just created")
-						continue
+						// the root may be held in a local that takes several values (newroot := n1; if .. { newroot = n2 }):
+						// the values it can have where this branch is created, given the conditions on that path
+						may := false
+						if rv := identObj(info, sr.Args[0]); rv != nil {
+							vals := map[string]bool{}
+							nAss := 0
+							forAssignsTo(info, fi.Decl.Body, rv, func(rhs ast.Expr, multi, incdec bool) {
+								nAss++
+								if rhs != nil && !multi {
+									vals[c.canon(info, rhs, o)] = true
+								}
+							})
+							if nAss > 1 && vals[cn.child] {
+								if conds, okc := c.pathConds(info, fi.Decl.Body, connNode(fi.Decl.Body, cn.pos), false); okc {
+									for _, cd := range flattenConds(conds) {
+										be, ok := unparen(cd.Expr).(*ast.BinaryExpr)
+										if cd.Expr == nil || !ok || (be.Op != token.EQL && be.Op != token.NEQ) {
+											continue
+										}
+										for _, side := range [][2]ast.Expr{{be.X, be.Y}, {be.Y, be.X}} {
+											if identObj(info, side[0]) != rv {
+												continue
+											}
+											v := c.canon(info, side[1], o)
+											eq := (be.Op == token.EQL) != cd.Neg
+											if eq {
+												for k := range vals {
+													if k != v {
+														delete(vals, k)
+													}
+												}
+											} else {
+												delete(vals, v)
+											}
+										}
+									}
+								}
+								may = vals[cn.child]
+							}
+						}
+						if !may {
+							c.OK(rule, key, sr.Pos(), "the new root is not the child end of the branch just created")
+							continue
+						}
 					}
 					later := false
 					for _, c2 := range callsIn(fi.Decl.Body, false) {
